@@ -830,11 +830,22 @@ class AffInterp:
         if isinstance(v, DataCond):
             if self.data_policy is None:
                 raise AnalysisError("%s:%d branch on a data-dependent condition `%s`" % (func.qualname, getattr(st, "lineno", 0), v.text))
+            # a test on the time-step ARGUMENT (scalar or array? all entries equal?) has one answer for the whole step
+            memo = getattr(self, "_stable_conds", None)
+            if memo is None:
+                memo = self._stable_conds = {}
+            if getattr(v, "stable", False) and v.text in memo:
+                return memo[v.text]
             k = len(self.data_log)
             if k >= len(self.data_policy):
                 raise _NeedPolicy()
             r = self.data_policy[k]
+            if getattr(v, "stable", False):
+                memo[v.text] = r
             self.data_log.append("%s:%d `%s` taken as %s" % (func.qualname, getattr(st, "lineno", 0), v.text[:60], r))
+            if r and getattr(v, "all_equal", False):
+                # (dt == min(dt)).all() holds: on this path the array and its reduction are the same values in every cell
+                self.kinds_equal = True
             return r
         if v is None:
             return False
@@ -1062,6 +1073,15 @@ class AffInterp:
             return lambda *x, **k: DataVal("%s of the matrix" % a)
         if isinstance(o, tuple) and o and o[0] == "absarr" and a in ("max", "min", "mean", "sum"):
             return lambda *x, **k: DataVal("%s|data|" % a)
+        if isinstance(o, (DataCond, bool)) and a in ("any", "all"):
+            def _red(*x, **k):
+                if isinstance(o, DataCond) and a == "all" and getattr(o, "eq_kinds", False):
+                    c = DataCond(o.text + ".all()")
+                    c.all_equal = True          # every cell satisfies the equality
+                    c.stable = True
+                    return c
+                return o            # of a comparison that is one condition here: that condition
+            return _red
         if isinstance(o, CArr) and a == "size":
             return o.size
         if isinstance(o, CArr) and a == "ndim":
@@ -1182,6 +1202,12 @@ class AffInterp:
             b = b.const()
         if isinstance(op, (ast.Eq, ast.NotEq)) and (isinstance(a, Idx) or isinstance(b, Idx)) and not (isinstance(a, Idx) and isinstance(b, Idx)):
             return IdxCond(unparse(node))
+        if isinstance(op, (ast.Eq, ast.NotEq)) and isinstance(a, S) and isinstance(b, S) and a.kinds != b.kinds and not (a.is_const() or b.is_const()):
+            # the time-step array against a reduction of it (dt == min(dt)): true in some cells, false in others
+            c = DataCond(unparse(node))
+            c.eq_kinds = isinstance(op, ast.Eq)
+            c.stable = True
+            return c
         if isinstance(op, ast.Eq):
             return a == b
         if isinstance(op, ast.NotEq):
@@ -1200,7 +1226,9 @@ class AffInterp:
         if isinstance(a, Idx) or isinstance(b, Idx):
             return IdxCond(unparse(node))
         if all(isinstance(x, (S, int, Fraction, EpsVal, DataVal)) for x in (a, b)) and any(isinstance(x, (S, DataVal)) for x in (a, b)):
-            return DataCond(unparse(node))          # a quantity derived from the data (a norm, a time step) against a bound
+            c = DataCond(unparse(node))          # a quantity derived from the data (a norm, a time step) against a bound
+            c.stable = any(isinstance(x, DataVal) and x.text.startswith("np.ndim of the time step") for x in (a, b))
+            return c
         raise AnalysisError("%s:%d comparison of abstract values" % (func.qualname, node.lineno))
 
     def e_BinOp(self, node, env, func):
@@ -1370,6 +1398,8 @@ class AffInterp:
             return DataVal(unparse(node))           # magnitude of the matrix / of a data-derived scalar
         if base in ("ravel", "concatenate", "hstack") and args and isinstance(args[0], (list, tuple)) and args[0] and all(isinstance(x, AArr) for x in args[0]):
             return VarMajor(list(args[0]), "%s:%d `%s`" % (func.qualname, ln, unparse(node)[:50]))
+        if base == "ndim" and len(args) == 1 and isinstance(args[0], S) and "arr" in args[0].kinds:
+            return DataVal("np.ndim of the time step (a scalar, or an array of local steps)")
         if base in ("min", "amin"):
             return self.dtred("min", args[0])
         if base in ("max", "amax"):
@@ -1489,7 +1519,10 @@ def _step_signature(out):
     for o in out:
         f = o["field"]
         sig.append((repr(f.time.s if hasattr(f.time, "s") else f.time), tuple(sorted((repr(k), tuple(sorted(v.items()))) for q in range(NEQ) for k, v in f.data[q].form.items())),
-                    len(o["K"]), len(o["solves"])))
+                    len(o["K"]), len(o["solves"]),
+                    # which form of the time step multiplies the residuals (the argument itself: each cell's own step under a
+                    # local-time-step array; a reduction of it: one value for all cells)
+                    tuple(sorted({("arr" if o.get("kinds_equal") and k == "min" else k) for q in range(NEQ) for k in getattr(f.data[q], "kinds", ())}))))
     return tuple(sig)
 
 
@@ -1501,8 +1534,8 @@ def run_step(project, cls, nsteps=1, rhs_owned=False):
     done = []
     while pending:
         pol = pending.pop(0)
-        if len(pol) > 4:
-            raise AnalysisError("%s: more than 4 data-dependent conditions in one step" % cls.qualname)
+        if len(pol) > 8:
+            raise AnalysisError("%s: more than 8 data-dependent conditions in one step" % cls.qualname)
         try:
             ai, out = _run_step_path(project, cls, nsteps, rhs_owned, pol)
         except _NeedPolicy:
@@ -1550,7 +1583,7 @@ def _run_step_path(project, cls, nsteps, rhs_owned, policy):
                 continue
             ai.selfobj.attrs[a] = [AArr({("L", q): {0: Fraction(1)}}) for q in range(NEQ)]
         ai.step(f, dt_arg())
-        out.append(dict(field=f, K=ai.trace.K[k0:], J=ai.trace.J[j0:], solves=ai.trace.solves[s0:], k0=k0, s0=s0,
+        out.append(dict(field=f, K=ai.trace.K[k0:], J=ai.trace.J[j0:], solves=ai.trace.solves[s0:], k0=k0, s0=s0, kinds_equal=getattr(ai, "kinds_equal", False),
                         typestate="history" if had else "no history",
                         stored={a: v for a, v in ai.selfobj.attrs.items() if a.startswith("_last")}))
     return ai, out
